@@ -78,8 +78,9 @@ static void case_fib(ByteSource& in, CaseInfo& ci) {
   else { mpz_lucnum2_ui(a, b, n); REQUIRE_WF(a, names[f]); REQUIRE_WF(b, names[f]); REQUIRE(int_from_mpz(a) == ln, "mpz_lucnum2_ui(%llu): wrong L[n]", (unsigned long long)n); REQUIRE(int_from_mpz(b) == ln1, "mpz_lucnum2_ui(%llu): wrong L[n-1]", (unsigned long long)n); }
 }
 static void case_remove(ByteSource& in, CaseInfo& ci) {
-  // domain: f >= 2 (the function raises DIVIDE_BY_ZERO for every f <= 1, DESIGN.md S2)
+  // domain: |f| >= 2 (f = 0, +-1 have no finite count; the function raises DIVIDE_BY_ZERO for them). Negative factors are part of "every argument": -72 = (-3)^2 * (-8)
   Int F; unsigned fk = in.pick({3, 3, 2, 2}); if (fk == 0) F = Int(2); else if (fk == 1) F = Int::from_u64(in.range(3, 1000)); else if (fk == 2) F = ref::pow2(in.range(1, 130)); else { Limbs v = limbs_nz(in, (size_t)in.range(1, 4)); F = Int::from_limbs(v.data(), v.size()); if (F < Int(2)) F = Int(6); }
+  if (in.chance(64)) { F = -F; ci.label("remove:negative_factor"); }
   uint64_t mult = in.pick({2, 3, 2}) == 0 ? 0 : in.flag() ? in.range(0, 20) : in.logrange(0, 4096 / std::max<uint64_t>(1, F.bits()) + 40);
   Int cof = gen_int(in, 4); if (cof.is_zero() && in.chance(200)) cof = Int(1);
   // make the cofactor not divisible by F
